@@ -62,6 +62,8 @@ def source(case, d, tag, seed):
         h[115], h[117], h[109], h[37] = nz, 4000, case['delay'], 3
         if h[215] not in (0, 1):        # one time scalar for the whole file (it scales the delay word: a per-trace scalar would give every trace its own sample axis)
             h[215] = 16
+        if case['bg'] in ('const', 'mix'):        # constant NEGATIVE words (the usual coordinate / elevation scalars)
+            h[69], h[71] = -10, -100
         h[1] = t + 1
         h[181], h[185] = (-2147483647 - 1 if t == 0 else 2147483647 - t), 32767 * (t % 2)
         h[29] = (-32768, 32767, 0)[t % 3]
